@@ -718,6 +718,16 @@ def run(tier, seed):
         c.obligation_broken(f"Coq build of {b['failed_file']}", b["log_tail"][-1200:])
         if g["ok"]:
             c.cov["gen_vs_model_diff"], directed = gen_vs_model_diff()
+    if b["ok"] and tier == "thorough":
+        # independent re-check of the compiled closure of Props/C19.vo
+        import fcntl
+        with open(core.LOCK, "w") as lk:
+            fcntl.flock(lk, fcntl.LOCK_EX)
+            rc, out = core.sh("timeout 800 coqchk -silent -o -R . XV XV.Props.C19", timeout=830, cwd=core.COQ)
+        tail = [ln.strip() for ln in out.splitlines() if "relying on" in ln or "assumed" in ln]
+        c.cov["coqchk"] = {"cmd": "coqchk -silent -o -R . XV XV.Props.C19", "ok": rc == 0, "summary": tail}
+        if rc != 0:
+            c.obligation_broken("coqchk of Props/C19.vo", out[-800:])
     hard = bool(c.broken)          # an obligation is broken: search a larger domain
     ratios, stats = {}, {k: 0 for k in (
         "coq_case_files", "compared_bit_for_bit", "model_disagreements", "std_or_err_differs_by_ulps_pow_vs_sqrt",
